@@ -11,28 +11,44 @@ namespace Aiocoap.Uri
 -- well-formedness of canonical option sets -----------------------------------------------
 
 /-- a canonical IPv6 text as `str(ipaddress.IPv6Address(..))` prints it: a fixed point of the
-normaliser, containing a colon, no authority delimiters, lower-case before the zone.  These are
-assumptions about the *oracle* (Python's `ipaddress` is not modelled); the harness checks them
-on every address it generates. -/
+normaliser, containing a colon, hex digits / colons / dots before the zone identifier, lower-case
+there, not starting with `v` — these are assumptions about the *oracle* (Python's `ipaddress` is
+not modelled; the harness checks them on every address it sees) — and `zone`: the zone identifier
+consists of unreserved characters.  That one is no assumption about `ipaddress` (which takes any
+text for a zone): it is what `set_request_uri` and `_quote_host` check since the fixes. -/
 structure Ip6Text (ip : IpOracle) (t : Bytes) : Prop where
   fixed : ip.norm6 t = some t
   colon : 58 ∈ t
-  clean : ∀ c ∈ t, c ≠ 91 ∧ c ≠ 93 ∧ c ≠ 64 ∧ isNetlocDelim c = false ∧ isUnsafeWs c = false
+  addr : ∀ c ∈ before 37 t, isHex c = true ∨ c = 58 ∨ c = 46
+  zone : zoneOk t = true
   lower : lowerUntilPct t = t
   notV : t.head? ≠ some 118
+
+/-- hence no bracket, `@`, authority delimiter or dropped white space anywhere in it -/
+theorem Ip6Text.clean {ip : IpOracle} {t : Bytes} (h : Ip6Text ip t) :
+    ∀ c ∈ t, c ≠ 91 ∧ c ≠ 93 ∧ c ≠ 64 ∧ isNetlocDelim c = false ∧ isUnsafeWs c = false := by
+  intro c hc
+  simp only [isNetlocDelim, isUnsafeWs, Bool.or_eq_false_iff, beq_eq_false_iff_ne, ne_eq]
+  rcases mem_cases_pct hc with h1 | h1 | h1
+  · have := addrChar_facts (h.addr c h1)
+    omega
+  · omega
+  · have := unreserved_facts (zoneOk_iff.mp h.zone c h1)
+    omega
 
 /-- segment lists in scope: UTF-8 text, and not the degenerate `[""]` -/
 def SegsOk (segs : List Bytes) : Prop := segs ≠ [[]] ∧ ∀ s ∈ segs, s.wf ∧ utf8Valid s = true
 
 /-- a Uri-Host value as §6.4 produces it: non-empty UTF-8 text without upper-case ASCII letters
-that does not spell an IP address -/
+that does not spell an IP address.  (`notIp6` refers to the test `_quote_host` makes: an IPv6 text
+whose zone identifier is not unreserved *is* a name, e.g. `fe80::1%a?b`.) -/
 structure NameOk (ip : IpOracle) (h : Bytes) : Prop where
   ne : h ≠ []
   wf : h.wf
   utf8 : utf8Valid h = true
   lower : ∀ c ∈ h, isUpper c = false
   notIp4 : ip4Looking h = false
-  notIp6 : ((h.contains 58 || h.contains 91) && (ip.norm6 (unbracket h)).isSome) = false
+  notIp6 : passesAsAddress ip h = false
 
 def HostOk (ip : IpOracle) : Host → Prop
   | .name h => NameOk ip h
@@ -68,6 +84,7 @@ structure NetlocFacts (ip : IpOracle) (n : Bytes) (uriHost : Option Bytes) : Pro
      (n.head? == some 91 || ip4Looking hn) = false ∧
         ∃ h, unquoteStrict hn = some h ∧ uriHost = some (asciiLower h))
   userinfo : hasUserinfo n = false
+  literal : literalOk n = true
   port : ∃ p, portOf n = some p
   undecided : undecidedHostinfo ip n = some n
 
@@ -83,7 +100,7 @@ theorem fromParsed_of_facts {ip : IpOracle} {s n : Bytes} {uriHost : Option Byte
   unfold fromParsed
   have hsc : coapSchemes.contains s = true := by simpa using hs
   simp only [ne_eq, not_true_eq_false, ↓reduceIte, coapScheme_ne_nil hs, hsc, Bool.not_true,
-    Bool.false_eq_true, hhn, hn.userinfo, decodePath_encodePath hp.1 hp.2,
+    Bool.false_eq_true, hhn, hn.userinfo, hn.literal, decodePath_encodePath hp.1 hp.2,
     decodeQuery_encodeQuery hq.1 hq.2, hport, hn.undecided]
   rcases hlit with ⟨h1, h2⟩ | ⟨h1, h, h2, h3⟩
   · rw [if_pos h1, h2]
